@@ -51,8 +51,7 @@ MANIFEST = dict(
           'C++ by a differential run of every view over an exhaustive small scope on every check and cross-checked against NumPy / the documented '
           'definitions. The defects found on the original tree (negative axis in repeat / take / concatenate / stack / compress, negative take '
           'entries, repeated roll axes, diagonal with negative or too large offset, split cut points beyond the extent, arange negative count / negative '
-          'integer step with real dtype, linspace num=1) are repaired in /repo; model and theorems follow the repaired code and the regression inputs stay in the generators. '
-          'Open finding: arange counts its elements in binary32 (known finding arange.float32-length, theorem arange_len_f32_counterexample, repair proposed in fixes/C04-arange.float32-length.diff).'),
+          'integer step with real dtype, arange count computed in binary32, linspace num=1) are repaired in /repo; model and theorems follow the repaired code and the regression inputs stay in the generators.'),
     note=('Lean kernel + propext/Classical.choice/Quot.sound; model hand-written, fidelity rests on the correspondence run (IMPL = MODEL on every '
           'generated request); for arange / linspace with real elements the theorems fix the rational expression of each element, its binary32 / binary64 value is the '
           'harness\'s and is compared with relative tolerance 1e-6; statements listed in partial_statements are not claimed in full.'),
@@ -70,7 +69,7 @@ PARTIAL = [
     'sliding_window*: stated on the no-wrap domain (windows >= 1, total trim of an axis <= its extent; NumPy additionally refuses a trimmed extent 0); beyond it the C++ wraps in size_t (huge extent) while the model truncates at 0 — not generated, not claimed',
     'sliding_window: scalar window with axis None is NumPy-defined for rank 1 only (slidingWindowScalarNone_rank1); for higher ranks the C++ accepts the call (every axis shrinks, one window axis added to axis 0) — no reference, model mirrors it, not generated',
     'splitIdx_*: cut points >= 0 (a negative cut point wraps to a huge size_t in the C++ and means from-the-end in NumPy: outside the domain); splitIdx_partition additionally needs sorted cut points',
-    'arange_len / arange_shape_elem: stated on the binary32-exact range |stop - start|*sd < 2^24, |step numerator| < 2^24 (outside it the code is wrong: known finding arange.float32-length); real start / stop do not instantiate in nmtools',
+    'arange_len / arange_shape_elem with a REAL step: stated on the binary32-exact range |stop - start|*sd < 2^24, |step numerator| < 2^24 (integer steps: arange_len_int, every range); real start / stop do not instantiate in nmtools',
     'linspace_*: start / stop on the quarter grid (exactly representable); the theorems fix the rational expression, not the rounded floating value',
     'per-element repeats with axis None: does not instantiate in nmtools (shape_repeat multiplies the product by the repeats list); not runnable, not claimed',
 ]
